@@ -366,6 +366,65 @@ func valTemps(info *types.Info, fd *ast.FuncDecl) {
 			}
 		}
 	}
+	// (B) moves the evaluation of the defining expression in front of the consuming statement. That is the same
+	// moment only if nothing with an effect is evaluated, inside the consuming statement, before the place where the
+	// local is used: every call that ends before the use must be a reviewed pure callee, a builtin or a conversion
+	// (or the defining expression itself has no call at all); and two such locals feeding one statement must be
+	// used in the order they were defined.
+	hasCall := func(e ast.Expr) bool {
+		found := false
+		ast.Inspect(e, func(n ast.Node) bool {
+			if call, ok := n.(*ast.CallExpr); ok {
+				if tv, isT := info.Types[call.Fun]; isT && tv.IsType() {
+					return true
+				}
+				if id, isId := call.Fun.(*ast.Ident); isId {
+					if _, isB := info.Uses[id].(*types.Builtin); isB {
+						return true
+					}
+				}
+				if !isPureCalleeCall(info, call) {
+					found = true
+				}
+			}
+			return !found
+		})
+		return found
+	}
+	for _, list := range blocks {
+		for i, st := range list {
+			for _, c := range defCand[st] {
+				if !accepted[c] || stable[c] || !hasCall(c.x) {
+					continue
+				}
+				use := c.uses[0]
+				for j := i + 1; j < len(list); j++ {
+					if !headUses(list[j], use) {
+						continue
+					}
+					ast.Inspect(list[j], func(n ast.Node) bool {
+						switch x := n.(type) {
+						case *ast.FuncLit:
+							return false
+						case *ast.CallExpr:
+							if x.End() <= use.Pos() && hasCall(x) {
+								accepted[c] = false // an effectful call of the consuming statement is evaluated before the use
+							}
+						case *ast.Ident:
+							// another call-carrying temporary used earlier in the statement but defined later (or vice versa)
+							if d := byObj[info.Uses[x]]; d != nil && d != c && accepted[d] && !stable[d] && hasCall(d.x) {
+								if (x.Pos() < use.Pos()) != (d.stmt.Pos() < c.stmt.Pos()) {
+									accepted[c] = false
+								}
+							}
+						}
+						return true
+					})
+					break
+				}
+			}
+		}
+	}
 	for _, c := range cands {
 		if accepted[c] {
 			valTempExpr[c.obj] = c.x
